@@ -5,6 +5,7 @@
 -/
 import GoNeat.Driver.Population
 import GoNeat.Spec.ParInv
+import GoNeat.Model.ParEpoch
 
 namespace GoNeat.Driver
 open Lean
@@ -90,17 +91,106 @@ def hTwinRun : Handler := fun j => do
            detail := if why != "" then why else childErr, sig := if why == "" then "" else "twinRun:differs",
            props := [("C17", why == "", why, "twinRun:differs")] }
 
-/-- `parInterleave`: nested interleavings of structural mutations on one shared registry; the guarantees of C16 (b) are
-    evaluated on the implementation's genomes: every genome well-formed, one innovation number = one link and one node
-    id = one role across ALL genomes, numbers first seen in this round above the counters of its start -/
+/-! ### `parInterleave`: co-simulation of the NON-ATOMIC model (Model/ParEpoch.lean) under interference -/
+
+def ilKindName : Nat → String
+  | 0 => "snapshot" | 1 => "nextNode" | 2 => "nextInn" | 3 => "store" | _ => "?"
+
+/-- the registry operation a thread of the model is blocked on -/
+def ilProgKind {α : Type} : C16.Prog Float α → String
+  | .done _ => "returned" | .snap _ => "snapshot" | .nextNode _ => "nextNode" | .nextInn _ => "nextInn" | .store _ _ => "store"
+
+/-- what the operation the model's thread is blocked on exchanges with the registry: the number of records a snapshot
+    sees, the number a counter returns, the record a store appends -/
+def ilStepWhy {α : Type} (p : C16.Prog Float α) (reg : Reg Float) (v : Int) (recJ : Option Json) : Option String :=
+  match p with
+  | .snap _ => if (reg.records.length : Int) == v then none else some s!"snapshot sees {reg.records.length} records in the model, {v} in the implementation"
+  | .nextNode _ => if reg.nextNodeId.1 == v then none else some s!"NextNodeId returns {reg.nextNodeId.1} in the model, {v} in the implementation"
+  | .nextInn _ => if reg.nextInnovation.1 == v then none else some s!"NextInnovationNumber returns {reg.nextInnovation.1} in the model, {v} in the implementation"
+  | .store i _ =>
+    match recJ with
+    | none => some "trace entry of a store without the record"
+    | some rj => (jsonDiff "record" (jInnov i) rj).map (fun d => "stored record differs (model vs implementation): " ++ d)
+  | .done _ => none
+
+/-- follow the trace: one scheduler pick (`pstep`) per entry; the first entry at which the model's thread is not blocked on
+    the operation the implementation performed (or exchanges another value with the registry) stops the walk -/
+def ilWalk (st : C16.PState Float (C16.MRes Float)) : List (Nat × Nat × Int × Option Json) → Nat →
+    Except String (C16.PState Float (C16.MRes Float))
+  | [], _ => .ok st
+  | (ti, k, v, recJ) :: rest, n =>
+    match st.threads[ti]? with
+    | none => .error s!"step {n}: trace names thread {ti}, which does not exist"
+    | some p =>
+      if ilProgKind p != ilKindName k then
+        .error s!"step {n}: thread {ti} performs {ilKindName k} in the implementation, the model's thread {ti} is at: {ilProgKind p}"
+      else match ilStepWhy p st.reg v recJ with
+        | some d => .error s!"step {n}: thread {ti} {ilKindName k}: {d}"
+        | none => ilWalk (C16.pstep st ti) rest (n + 1)
+
+/-- `parInterleave`: nested interleavings of structural mutations on one shared registry.
+    corr: every thread's `Prog` (mutateAddNodeP / mutateAddLinkP / mutateConnectSensorsP on its input genome with the raw
+    random values the implementation's thread consumed) is stepped with `pstep` along the recorded trace of registry
+    operations; every step must be the operation the model's thread is blocked on, with the same value exchanged; at the end
+    every thread has returned with the implementation's flag / error class / genome / number of raw values consumed, and the
+    registry (records in order, both counters) is the implementation's.
+    spec: the guarantees of C16 (b) on the implementation's genomes: every genome well-formed, one innovation number = one
+    link and one node id = one role across ALL genomes, numbers first seen in this round above the counters of its start -/
 def hParInterleave : Handler := fun j => do
   let inp ← fld j "in"
   let out ← fld j "out"
-  let before ← (← fldArr inp "genomes").mapM parseGenome
-  let afterJ ← fldArr out "genomes"
+  let thsIn ← fldArr inp "threads"
+  let thsOut ← fldArr out "threads"
+  let before ← thsIn.mapM (fun t => do parseGenome (← fld t "g"))
+  let afterJ ← thsOut.mapM (fun t => fld t "g")
   let after ← afterJ.mapM parseGenome
   let reg0 ← parseReg (← fld inp "reg")
-  let ths ← fldArr out "threads"
+  let implReg ← parseReg (← fld out "reg")
+  let o ← parseMutOpts (← fld inp "opts")
+  let regMode ← fldStr inp "regMode"
+  -- the model's threads
+  let progs ← (thsIn.zip before).mapM (fun ((t, g) : Json × Genome Float) => do
+    let kind ← fldNat t "kind"
+    let rs ← arrNat (← fld t "rand")
+    let mk : C16.MutKind Float := match kind with | 0 => .addNode o | 1 => .addLink o | _ => .connectSensors
+    pure (mk.prog g rs, rs.length))
+  let trace ← (← fldArr out "trace").mapM (fun e => do
+    pure ((← fldNat e "t"), (← fldNat e "k"), (← fldInt e "v"), fldOpt e "rec"))
+  let st0 : C16.PState Float (C16.MRes Float) := { reg := reg0, threads := progs.map (·.1) }
+  let corrWhy : String ←
+    match ilWalk st0 trace 0 with
+    | .error d => pure d
+    | .ok st =>
+      -- every thread must have returned, with the implementation's result
+      let rec cmp (i : Nat) : List (C16.Prog Float (C16.MRes Float)) → List Json → List Json → List Nat → E String
+        | p :: ps, ti :: tis, tout :: touts, len :: lens => do
+          let implErr := optStr tout "err"
+          let implOk ← fldBool tout "ok"
+          let implG ← parseGenome (← fld tout "g")
+          let consumed ← fldNat ti "consumed"
+          let why : String :=
+            match p with
+            | .done r =>
+              match r, implErr with
+              | .error e, some ie => if stopStr e == ie then "" else s!"error class: model {stopStr e} vs impl {ie}"
+              | .error e, none => s!"model stops ({stopStr e}) but impl succeeds"
+              | .ok _, some ie => s!"impl fails ({ie}) but model succeeds"
+              | .ok ((g', b), rest), none =>
+                match jsonDiff "g" (jGenome g') (jGenome implG) with
+                | some d => d
+                | none =>
+                  if b != implOk then s!"result flag: model {b} vs impl {implOk}"
+                  else if len - rest.length != consumed then s!"randomness: model consumed {len - rest.length} raw values, impl {consumed}"
+                  else ""
+            | q => s!"after the last trace entry the model's thread is still at: {ilProgKind q} (the implementation's thread has returned)"
+          if why != "" then pure s!"thread {i}: {why}" else cmp (i + 1) ps tis touts lens
+        | [], [], [], [] => pure ""
+        | _, _, _, _ => pure "thread lists of different lengths"
+      let w ← cmp 0 st.threads thsIn thsOut (progs.map (·.2))
+      if w != "" then pure w
+      else match jsonDiff "reg" (jReg st.reg) (jReg implReg) with
+        | some d => pure ("registry after the last step: " ++ d)
+        | none => pure ""
   let inputOk := before.all (fun g => decide (WF g))
   let genes := after.flatMap (·.genes)
   let nodes := after.flatMap (·.nodes)
@@ -121,10 +211,22 @@ def hParInterleave : Handler := fun j => do
         else if nodes.any (fun n => !oldNodes.contains n.id && !reg0.records.any (fun r => r.newNode == n.id) && n.id ≤ reg0.nextNode)
           then "node id issued in this round is not above the counter at its start"
         else ""
-  let nOk := (ths.filter (fun t => (fldBool t "ok").toOption.getD false)).length
-  let nested := (ths.filter (fun t => (fldInt t "at").toOption.getD (-1) ≥ 0)).length
-  return { corr := true, spec := why == "", nontrivial := inputOk && nOk ≥ 2 && nested ≥ 1,
-           cls := s!"threads={ths.length}:ok={nOk}", detail := why, sig := if why == "" then "" else "parInterleave:" ++ why,
+  let nOk := (thsOut.filter (fun t => (fldBool t "ok").toOption.getD false)).length
+  let nestedL : List Bool := thsOut.map (fun t => decide ((fldInt t "nested").toOption.getD (-1) ≥ 0))
+  let nested := (nestedL.filter id).length
+  -- nesting depth: the longest chain thread i interrupted by i+1 interrupted by i+2 ...
+  let depth := (nestedL.foldl (fun (acc : Nat × Nat) b => if b then (acc.1 + 1, max acc.2 (acc.1 + 1)) else (0, acc.2)) (0, 0)).2
+  -- same choice under interference: two records of this round for one link / one split (different numbers)
+  let newRecs := implReg.records.drop reg0.records.length
+  let dup := newRecs.any (fun a => (newRecs.filter (fun b => b.typ == a.typ && b.inId == a.inId && b.outId == a.outId &&
+                                                         b.oldInn == a.oldInn && b.recur == a.recur)).length ≥ 2)
+  -- a thread that found a matching record: a snapshot, success, and no store of its own
+  let matched := (List.range thsOut.length).any (fun i =>
+    trace.any (fun e => e.1 == i && e.2.1 == 0) && !trace.any (fun e => e.1 == i && e.2.1 == 3) &&
+    ((thsOut[i]?).map (fun t => (fldBool t "ok").toOption.getD false)).getD false)
+  return { corr := corrWhy == "", spec := why == "", nontrivial := inputOk && nOk ≥ 2 && nested ≥ 1,
+           cls := s!"threads={thsOut.length}:depth={depth}:{regMode}" ++ (if dup then ":sameChoice" else "") ++ (if matched then ":matched" else ""),
+           detail := if corrWhy != "" then corrWhy else why, sig := if why == "" then "" else "parInterleave:" ++ why,
            props := [("C16", why == "", why, "parInterleave"), ("C03", why == "", why, "parInterleave")] }
 
 def parallelOps : List (String × Handler) := [("parEpochs", hParEpochs), ("twinRun", hTwinRun), ("parInterleave", hParInterleave)]
